@@ -125,6 +125,8 @@ def run(tier, seed):
         chk.machine_family("histories-d4-shard", [history_scenario([sub, sub, sub, sub])], features=features)
     chk.machine_family("suspended-late-binding", suspended_scenarios(), features=features, opts_list=[{}, {"via_file": True}])
     chk.machine_family("look-alike-predicate-names", lookalike_scenarios(), features=features)
+    from .. import gen as _g
+    chk.machine_family("names-that-look-like-something-else", _g.special_name_scenarios(), {"must_complete": True}, features=features, opts_list=[{"must_complete": True}, {"must_complete": True, "via_file": True}])
     chk.exhaustive = True
     need = ["DoCallReserved", "DoCallUnknown", "DoCallNative", "DoCallFacts", "DoCallClause", "DoCut"]
     missing = [e for e in need if not chk.events.get(e)]
